@@ -64,6 +64,8 @@ def o_c02(ctx, desc, obs, model, kw):
             trig = {}
             if k == "source":
                 trig = {"vo_neg": c["args"]["vo"] < 0, "rs_pos": abs(c["args"].get("rs", 0.0)) > 0}
+            if k == "converter":
+                trig = {"vo_zero": c["args"]["vo"] == 0}
             base = {"phase": p["phase"], "row": r["name"], "Power": P, "Loss": L, "Vin": r["vin"], "Vout": r["vout"],
                     "Iin": r["iin"], "Iout": r["iout"]}
             if k in LOADS:
@@ -96,7 +98,8 @@ def o_c02(ctx, desc, obs, model, kw):
                     ctx.oracle(desc, "peak_temp", k, {}, dict(base, rise=r["tr"], peak=r["tp"], ta=ta))
         if abs(src_p - (load_p + loss_nl)) > scale + 1e-9 * src_p:
             neg = any(c["kind"] == "source" and c["args"]["vo"] < 0 and abs(c["args"].get("rs", 0)) > 0 for c in desc["comps"])
-            ctx.oracle(desc, "system_balance", "system", {"neg_source_rs": neg},
+            cz = any(c["kind"] == "converter" and c["args"]["vo"] == 0 for c in desc["comps"])
+            ctx.oracle(desc, "system_balance", "system", {"neg_source_rs": neg, "conv_vo_zero": cz},
                        {"phase": p["phase"], "sources": src_p, "loads": load_p, "losses": loss_nl})
 
 
